@@ -7,7 +7,6 @@ import (
 	"go/token"
 	"go/types"
 	"math"
-	"os"
 	"sort"
 	"strings"
 
@@ -557,220 +556,228 @@ func indexDistance(info *types.Info, a, b ast.Expr) (int, bool) {
 	return ka - kb, true
 }
 
-// E2RecordLayout: payload offsets stay inside the record of the command being decoded.
-func E2RecordLayout(c *core.Ctx, r *core.Report) {
-	r.Rule("E2.layout", "inside `case C` / `if cmd == C` of a decoder whose cmd was read at A.d[i], a read A.d[i+k] has 0 <= k <= cmdLens[C]-1 for every C of that case; after the cursor has been advanced past the record only i-1..i-3 are unconditional, i-4/i-5 need a record of >= 6 values and i-6/i-7 one of 8")
-	p := c.MustPkg("")
+// decoderSite is one read/write A.d[i+k] inside a context where the command decoded at A.d[i] is known.
+type decoderSite struct {
+	ie   *ast.IndexExpr
+	path string   // path variable key
+	base string   // cursor name
+	k    int      // offset
+	set  []string // commands possible here
+}
+
+// decoderSites walks a function and reports every index A.d[i+k] (k >= 0) made with the cursor i
+// of a `cmd := A.d[i]` inside `case C…` / `if cmd == C` contexts (with if/else refinement).
+func decoderSites(p *packages.Package, fd *ast.FuncDecl, onCase func(), visit func(decoderSite)) {
 	info := p.TypesInfo
-	dump := os.Getenv("E2_DUMP") != ""
-	for _, fd := range core.AllFuncDecls(p) {
-		fn := "canvas." + core.FuncName(fd)
-		f := e2Scan(p, fd)
-		if len(f.cmdIndex) == 0 {
-			continue
-		}
-		// walk with a context of possible commands for each cmd variable
-		type ctx struct {
-			cmdObj types.Object
-			set    []string
-		}
-		var walk func(n ast.Node, cx []ctx)
-		checkSites := func(n ast.Node, cx []ctx) {
-			ast.Inspect(n, func(m ast.Node) bool {
-				ie, key, ok := dataIndex(info, m)
-				if !ok {
-					return true
-				}
-				base, k, ok := linForm(info, ie.Index)
-				if !ok || base == "" {
-					return true
-				}
-				for _, x := range cx {
-					cur := f.cmdIndex[x.cmdObj]
-					if cur == nil || cur.Name() != base || !f.cmdOwner[x.cmdObj][key] {
-						continue
-					}
-					// base must be that cursor object
-					id, isId := core.Unparen(stripConst(ie.Index)).(*ast.Ident)
-					if !isId || core.ObjOf(info, id) != cur {
-						continue
-					}
-					if k < 0 {
-						continue // previous record's tail; covered by the cursor-domain rule only
-					}
-					minL := 99
-					for _, cn := range x.set {
-						if L := recordLen[cn]; L < minL {
-							minL = L
-						}
-					}
-					r.Count("E2.layout-sites", 1)
-					skey := fmt.Sprintf("%s|{%s}|%s.d[%s+%d]", fn, strings.Join(x.set, ","), pathVarName(key), base, k)
-					if k > minL-1 {
-						r.Fail("E2.layout", skey, c.Pos(ie.Pos()), fmt.Sprintf("offset +%d is outside a record of %d values (commands possible here: %s); it reads the next command's data", k, minL, strings.Join(x.set, ",")))
-					} else {
-						r.OK("E2.layout", skey, c.Pos(ie.Pos()), "")
-					}
-				}
-				return true
-			})
-		}
-		// condition `cmd == C (|| cmd == C2 …)`
-		var condSet func(e ast.Expr) (types.Object, []string, bool)
-		condSet = func(e ast.Expr) (types.Object, []string, bool) {
-			e = core.Unparen(e)
-			be, ok := e.(*ast.BinaryExpr)
+	f := e2Scan(p, fd)
+	if len(f.cmdIndex) == 0 {
+		return
+	}
+	type ctx struct {
+		cmdObj types.Object
+		set    []string
+	}
+	var walk func(n ast.Node, cx []ctx)
+	checkSites := func(n ast.Node, cx []ctx) {
+		ast.Inspect(n, func(m ast.Node) bool {
+			ie, key, ok := dataIndex(info, m)
 			if !ok {
-				return nil, nil, false
+				return true
 			}
-			if be.Op == token.EQL {
-				id, _ := core.Unparen(be.X).(*ast.Ident)
-				cn := core.ConstName(info, be.Y)
-				if id == nil {
-					id, _ = core.Unparen(be.Y).(*ast.Ident)
-					cn = core.ConstName(info, be.X)
+			base, k, ok := linForm(info, ie.Index)
+			if !ok || base == "" {
+				return true
+			}
+			for _, x := range cx {
+				cur := f.cmdIndex[x.cmdObj]
+				if cur == nil || cur.Name() != base || !f.cmdOwner[x.cmdObj][key] {
+					continue
 				}
-				if id != nil {
-					if _, ok := recordLen[cn]; ok {
-						if o := core.ObjOf(info, id); f.cmdIndex[o] != nil {
-							return o, []string{cn}, true
-						}
+				id, isId := core.Unparen(stripConst(ie.Index)).(*ast.Ident)
+				if !isId || core.ObjOf(info, id) != cur {
+					continue
+				}
+				if k < 0 {
+					continue // previous record's tail; covered by the cursor-domain rule only
+				}
+				visit(decoderSite{ie, key, base, k, x.set})
+			}
+			return true
+		})
+	}
+	var condSet func(e ast.Expr) (types.Object, []string, bool)
+	condSet = func(e ast.Expr) (types.Object, []string, bool) {
+		e = core.Unparen(e)
+		be, ok := e.(*ast.BinaryExpr)
+		if !ok {
+			return nil, nil, false
+		}
+		if be.Op == token.EQL {
+			id, _ := core.Unparen(be.X).(*ast.Ident)
+			cn := core.ConstName(info, be.Y)
+			if id == nil {
+				id, _ = core.Unparen(be.Y).(*ast.Ident)
+				cn = core.ConstName(info, be.X)
+			}
+			if id != nil {
+				if _, ok := recordLen[cn]; ok {
+					if o := core.ObjOf(info, id); f.cmdIndex[o] != nil {
+						return o, []string{cn}, true
 					}
-				}
-				return nil, nil, false
-			}
-			if be.Op == token.LOR {
-				o1, s1, ok1 := condSet(be.X)
-				o2, s2, ok2 := condSet(be.Y)
-				if ok1 && ok2 && o1 == o2 {
-					return o1, append(s1, s2...), true
 				}
 			}
 			return nil, nil, false
 		}
-		// advanced reports whether the statements assign the cursor
-		assigns := func(n ast.Node, cur types.Object) bool {
-			found := false
-			ast.Inspect(n, func(m ast.Node) bool {
-				switch x := m.(type) {
-				case *ast.AssignStmt:
-					for _, l := range x.Lhs {
-						if id, ok := l.(*ast.Ident); ok && core.ObjOf(info, id) == cur {
-							found = true
-						}
-					}
-				case *ast.IncDecStmt:
-					if id, ok := x.X.(*ast.Ident); ok && core.ObjOf(info, id) == cur {
+		if be.Op == token.LOR {
+			o1, s1, ok1 := condSet(be.X)
+			o2, s2, ok2 := condSet(be.Y)
+			if ok1 && ok2 && o1 == o2 {
+				return o1, append(s1, s2...), true
+			}
+		}
+		return nil, nil, false
+	}
+	assigns := func(n ast.Node, cur types.Object) bool {
+		found := false
+		ast.Inspect(n, func(m ast.Node) bool {
+			switch x := m.(type) {
+			case *ast.AssignStmt:
+				for _, l := range x.Lhs {
+					if id, ok := l.(*ast.Ident); ok && core.ObjOf(info, id) == cur {
 						found = true
 					}
 				}
-				return !found
-			})
-			return found
-		}
-		walk = func(n ast.Node, cx []ctx) {
-			switch x := n.(type) {
-			case nil:
-				return
-			case *ast.SwitchStmt:
-				if id, ok := core.Unparen(x.Tag).(*ast.Ident); ok && x.Tag != nil {
-					if o := core.ObjOf(info, id); f.cmdIndex[o] != nil {
-						for _, s := range x.Body.List {
-							cc := s.(*ast.CaseClause)
-							set := core.CaseConsts(info, cc)
-							valid := len(set) > 0
-							for _, cn := range set {
-								if _, ok := recordLen[cn]; !ok {
-									valid = false
-								}
+			case *ast.IncDecStmt:
+				if id, ok := x.X.(*ast.Ident); ok && core.ObjOf(info, id) == cur {
+					found = true
+				}
+			}
+			return !found
+		})
+		return found
+	}
+	walk = func(n ast.Node, cx []ctx) {
+		switch x := n.(type) {
+		case nil:
+			return
+		case *ast.SwitchStmt:
+			if id, ok := core.Unparen(x.Tag).(*ast.Ident); ok && x.Tag != nil {
+				if o := core.ObjOf(info, id); f.cmdIndex[o] != nil {
+					for _, s := range x.Body.List {
+						cc := s.(*ast.CaseClause)
+						set := core.CaseConsts(info, cc)
+						valid := len(set) > 0
+						for _, cn := range set {
+							if _, ok := recordLen[cn]; !ok {
+								valid = false
 							}
-							if !valid || assigns(&ast.BlockStmt{List: cc.Body}, f.cmdIndex[o]) {
-								for _, b := range cc.Body {
-									walk(b, cx)
-								}
-								continue
-							}
-							r.Count("E2.layout-cases", 1)
-							ncx := append(append([]ctx{}, cx...), ctx{o, set})
+						}
+						if !valid || assigns(&ast.BlockStmt{List: cc.Body}, f.cmdIndex[o]) {
 							for _, b := range cc.Body {
-								walk(b, ncx)
+								walk(b, cx)
 							}
+							continue
 						}
-						return
-					}
-				}
-				for _, s := range x.Body.List {
-					for _, b := range s.(*ast.CaseClause).Body {
-						walk(b, cx)
-					}
-				}
-			case *ast.IfStmt:
-				walk(x.Init, cx)
-				if o, set, ok := condSet(x.Cond); ok && !assigns(x, f.cmdIndex[o]) {
-					r.Count("E2.layout-cases", 1)
-					checkSites(x.Cond, cx)
-					// refine: then = enclosing ∩ cond, else = enclosing \ cond
-					enclosing := []string{"MoveToCmd", "LineToCmd", "QuadToCmd", "CubeToCmd", "ArcToCmd", "CloseCmd"}
-					var outer []ctx
-					for _, e := range cx {
-						if e.cmdObj == o {
-							enclosing = e.set
-						} else {
-							outer = append(outer, e)
+						onCase()
+						ncx := append(append([]ctx{}, cx...), ctx{o, set})
+						for _, b := range cc.Body {
+							walk(b, ncx)
 						}
-					}
-					in := map[string]bool{}
-					for _, s := range set {
-						in[s] = true
-					}
-					var thenSet, elseSet []string
-					for _, s := range enclosing {
-						if in[s] {
-							thenSet = append(thenSet, s)
-						} else {
-							elseSet = append(elseSet, s)
-						}
-					}
-					if len(thenSet) > 0 {
-						walk(x.Body, append(append([]ctx{}, outer...), ctx{o, thenSet}))
-					}
-					if x.Else != nil && len(elseSet) > 0 {
-						walk(x.Else, append(append([]ctx{}, outer...), ctx{o, elseSet}))
 					}
 					return
 				}
-				checkSites(x.Cond, cx)
-				walk(x.Body, cx)
-				walk(x.Else, cx)
-			case *ast.BlockStmt:
-				for _, s := range x.List {
-					walk(s, cx)
-				}
-			case *ast.ForStmt:
-				walk(x.Init, cx)
-				if x.Cond != nil {
-					checkSites(x.Cond, cx)
-				}
-				walk(x.Body, cx)
-				walk(x.Post, cx)
-			case *ast.RangeStmt:
-				walk(x.Body, cx)
-			case *ast.LabeledStmt:
-				walk(x.Stmt, cx)
-			case *ast.CaseClause:
-				for _, b := range x.Body {
+			}
+			for _, s := range x.Body.List {
+				for _, b := range s.(*ast.CaseClause).Body {
 					walk(b, cx)
 				}
-			default:
-				if len(cx) > 0 {
-					checkSites(n, cx)
+			}
+		case *ast.IfStmt:
+			walk(x.Init, cx)
+			if o, set, ok := condSet(x.Cond); ok && !assigns(x, f.cmdIndex[o]) {
+				onCase()
+				checkSites(x.Cond, cx)
+				enclosing := []string{"MoveToCmd", "LineToCmd", "QuadToCmd", "CubeToCmd", "ArcToCmd", "CloseCmd"}
+				var outer []ctx
+				for _, e := range cx {
+					if e.cmdObj == o {
+						enclosing = e.set
+					} else {
+						outer = append(outer, e)
+					}
 				}
+				in := map[string]bool{}
+				for _, s := range set {
+					in[s] = true
+				}
+				var thenSet, elseSet []string
+				for _, s := range enclosing {
+					if in[s] {
+						thenSet = append(thenSet, s)
+					} else {
+						elseSet = append(elseSet, s)
+					}
+				}
+				if len(thenSet) > 0 {
+					walk(x.Body, append(append([]ctx{}, outer...), ctx{o, thenSet}))
+				}
+				if x.Else != nil && len(elseSet) > 0 {
+					walk(x.Else, append(append([]ctx{}, outer...), ctx{o, elseSet}))
+				}
+				return
+			}
+			checkSites(x.Cond, cx)
+			walk(x.Body, cx)
+			walk(x.Else, cx)
+		case *ast.BlockStmt:
+			for _, s := range x.List {
+				walk(s, cx)
+			}
+		case *ast.ForStmt:
+			walk(x.Init, cx)
+			if x.Cond != nil {
+				checkSites(x.Cond, cx)
+			}
+			walk(x.Body, cx)
+			walk(x.Post, cx)
+		case *ast.RangeStmt:
+			walk(x.Body, cx)
+		case *ast.LabeledStmt:
+			walk(x.Stmt, cx)
+		case *ast.CaseClause:
+			for _, b := range x.Body {
+				walk(b, cx)
+			}
+		default:
+			if len(cx) > 0 {
+				checkSites(n, cx)
 			}
 		}
-		walk(fd.Body, nil)
-		if dump {
-			fmt.Fprintf(os.Stderr, "E2 %s cursors=%d\n", fn, len(f.cursors))
-		}
+	}
+	walk(fd.Body, nil)
+}
+
+// E2RecordLayout: payload offsets stay inside the record of the command being decoded.
+func E2RecordLayout(c *core.Ctx, r *core.Report) {
+	r.Rule("E2.layout", "inside `case C` / `if cmd == C` of a decoder whose cmd was read at A.d[i], a read A.d[i+k] has 0 <= k <= cmdLens[C]-1 for every C of that case (if/else chains on cmd refine the set)")
+	p := c.MustPkg("")
+	for _, fd := range core.AllFuncDecls(p) {
+		fn := "canvas." + core.FuncName(fd)
+		decoderSites(p, fd, func() { r.Count("E2.layout-cases", 1) }, func(s decoderSite) {
+			minL := 99
+			for _, cn := range s.set {
+				if L := recordLen[cn]; L < minL {
+					minL = L
+				}
+			}
+			r.Count("E2.layout-sites", 1)
+			skey := fmt.Sprintf("%s|{%s}|%s.d[%s+%d]", fn, strings.Join(s.set, ","), pathVarName(s.path), s.base, s.k)
+			if s.k > minL-1 {
+				r.Fail("E2.layout", skey, c.Pos(s.ie.Pos()), fmt.Sprintf("offset +%d is outside a record of %d values (commands possible here: %s); it reads the next command's data", s.k, minL, strings.Join(s.set, ",")))
+			} else {
+				r.OK("E2.layout", skey, c.Pos(s.ie.Pos()), "")
+			}
+		})
 	}
 	r.Floor("E2.layout-cases", 60)
 	r.Floor("E2.layout-sites", 250)
